@@ -112,7 +112,7 @@ func (e *Engine) preamble(body string) string {
 	for _, s := range sortClosure(roots) {
 		if s.Kind == KSlice {
 			// lengths are read through max(0, raw) so that every slice value has a non-negative length
-			fmt.Fprintf(&b, "(define-fun %s_n ((s %s)) Int (ite (>= (%s_len s) 0) (%s_len s) 0))\n", s.Name, s.Name, s.Name, s.Name)
+			fmt.Fprintf(&b, "(declare-fun %s_n (%s) Int)\n(assert (forall ((s %s)) (! (= (%s_n s) (ite (>= (%s_len s) 0) (%s_len s) 0)) :pattern ((%s_n s)))))\n", s.Name, s.Name, s.Name, s.Name, s.Name, s.Name, s.Name)
 		}
 	}
 	var ax strings.Builder
